@@ -62,7 +62,8 @@ def cases(tier, seed):
         if tier == "quick" and dt == "f32" and (b or n > 8):
             continue
         out.append({"k": "tridiag", "fam": fam, "n": n, "b": b, "init": init, "dt": dt})
-    for fam, n, b, method in itertools.product(["geom", "unif", "clustered", "repeated"], [3, 5, 8] + ([13, 20] if tier == "thorough" else []), [[], [2]],
+    # (n = 24 and 40 lie above every built-in iteration constant (20 quadrature / 15 preconditioner steps) and below the rank bound)
+    for fam, n, b, method in itertools.product(["geom", "unif", "clustered", "repeated"], [3, 5, 8, 24] + ([13, 20, 40] if tier == "thorough" else []), [[], [2]],
                                                ["root", "root_inv", "diagonalization"]):
         for budget in ("full", "half"):
             out.append({"k": "consumer", "fam": fam, "n": n, "b": b, "method": method, "budget": budget})
